@@ -45,7 +45,11 @@ func runUDP(c UCase, info *kit.Info, nat, metrics bool) *kit.Finding {
 		}
 		replies := 0
 		for _, a := range w.all {
-			replies += len(a.Replies)
+			for _, r := range a.Replies {
+				if !r.Lost {
+					replies++
+				}
+			}
 		}
 		info.NonTrivial = live >= 2 && shared && replies > 0
 		if info.NonTrivial {
@@ -121,6 +125,12 @@ func checkUDPMetrics(w *uWorld, info *kit.Info) *kit.Finding {
 		}
 		for i, s := range a.Replies {
 			e := ft[i]
+			if s.Lost {
+				if e.Status == "OK" {
+					return kit.Violation("udpmetrics:target-packet", "op %d: an oversize reply of %d bytes that was not relayed is reported with status OK (proxyClient=%d)", s.Op, s.PayloadLen, e.B)
+				}
+				continue
+			}
 			if e.Status != "OK" || e.A != int64(s.PayloadLen) || e.B != int64(s.WireLen) {
 				return kit.Violation("udpmetrics:target-packet", "op %d: reported (status=%s targetProxy=%d proxyClient=%d), observed payload=%d wire=%d", s.Op, e.Status, e.A, e.B, s.PayloadLen, s.WireLen)
 			}
@@ -148,6 +158,15 @@ func TestC03_UDP(t *testing.T) {
 		o = uOpts{maxKeys: 60, maxOps: 30}
 	}
 	p := kit.Prop[UCase]{ID: "C03", Name: "UDP", Quick: 3000, Thorough: 300000, Gen: genUCase(o),
+		Run: func(c UCase, info *kit.Info) *kit.Finding { return runUDP(c, info, false, false) }}
+	p.Execute(t)
+}
+
+// The same with short-lived associations and key-list updates: a former client coming back with a key that has
+// left the list is a new client address and must authenticate against the list in force.
+func TestC03_UDPExpiry(t *testing.T) {
+	o := uOpts{maxKeys: 4, maxOps: 14, manyClients: true, expiry: true, sizes: []int{0, 1, 64, 1400}}
+	p := kit.Prop[UCase]{ID: "C03", Name: "UDPExpiry", Quick: 160, Thorough: 30000, Gen: genUCase(o),
 		Run: func(c UCase, info *kit.Info) *kit.Finding { return runUDP(c, info, false, false) }}
 	p.Execute(t)
 }
